@@ -333,8 +333,10 @@ def execute(spec):
                 return fail('defaults_wrong', 'get', op=op, got=got)
         elif k == 'late_register':
             if not late[0]:
-                P.register_pretty(Late)(lambda v, ctx: P.pretty_call(ctx, Late, v.v))
+                target = Late if len(spec['ops']) % 2 else Late.__module__ + '.' + Late.__qualname__
+                P.register_pretty(target)(lambda v, ctx: P.pretty_call(ctx, Late, v.v))
                 late[0] = True
+                bump('late_registered_by_name' if isinstance(target, str) else 'late_registered_by_class')
             bump('op_late_register')
             trace.append(op)
         elif k == 'late_repr':
@@ -581,6 +583,10 @@ def _probe_one(seed):
         return dict(outcome='raised:' + got[1], switches=s.switches)
     t_old = P.pformat(v, **old)
     t_new = P.pformat(v, **new)
+    # afterwards, a call that leaves everything to the defaults must use what get_default_config reports
+    now = {k: P.get_default_config()[k] for k in KEYS}
+    if P.pformat(v) != P.pformat(v, **now):
+        return dict(outcome='stale_afterwards', switches=s.switches, text=P.pformat(v)[:200])
     return dict(outcome='old' if got[1] == t_old else 'new' if got[1] == t_new else 'mixed',
                 switches=s.switches, text=got[1][:200])
 
@@ -597,6 +603,10 @@ def pre_batch(tier):
         outcomes[r['outcome']] += 1
         if r['outcome'] not in ('old', 'new') and sample is None:
             sample = r
+    if outcomes.get('stale_afterwards'):
+        print('OBSERVATION (non-deciding, outside the quantifier of C18 and C20): after a pformat overlapped '
+              'set_default_config in another thread, later defaulted calls kept using stale defaults in %d of %d '
+              'schedules' % (outcomes['stale_afterwards'], PROBE_RUNS[tier]))
     if outcomes.get('mixed'):
         print('OBSERVATION (non-deciding, outside the quantifier of C18 and C20): a pformat overlapping '
               'set_default_config in another thread saw a mix of old and new defaults in %d of %d schedules'
